@@ -64,17 +64,19 @@ type Spec struct {
 	Prologue string `json:"prologue,omitempty"`
 	// MorePrologue: further %{ ... %} blocks, written after the declarations;
 	// a text without line break is written on one line (`%{ text %}`)
-	MorePrologue []string    `json:"more_prologue,omitempty"`
-	Union        string      `json:"union,omitempty"`
-	HasUnion     bool        `json:"has_union,omitempty"`
-	Tokens       []TokDecl   `json:"tokens"`
-	LateTokens   []TokDecl   `json:"late_tokens,omitempty"` // %token lines written after the precedence lines
-	Prec         []PrecLevel `json:"prec,omitempty"`
-	Types        []TypeDecl  `json:"types,omitempty"`
-	Start        string      `json:"start,omitempty"`
-	Rules        []Rule      `json:"rules"`
-	Epilogue     string      `json:"epilogue,omitempty"`
-	HasEpilogue  bool        `json:"has_epilogue,omitempty"`
+	MorePrologue []string  `json:"more_prologue,omitempty"`
+	Union        string    `json:"union,omitempty"`
+	HasUnion     bool      `json:"has_union,omitempty"`
+	Tokens       []TokDecl `json:"tokens"`
+	LateTokens   []TokDecl `json:"late_tokens,omitempty"` // %token lines written after the precedence lines
+	// RawDecls: lines written verbatim after the first %token lines (directives the model does not know)
+	RawDecls    []string    `json:"raw_decls,omitempty"`
+	Prec        []PrecLevel `json:"prec,omitempty"`
+	Types       []TypeDecl  `json:"types,omitempty"`
+	Start       string      `json:"start,omitempty"`
+	Rules       []Rule      `json:"rules"`
+	Epilogue    string      `json:"epilogue,omitempty"`
+	HasEpilogue bool        `json:"has_epilogue,omitempty"`
 }
 
 // IsLit reports whether a symbol is written as a character literal.
@@ -187,6 +189,9 @@ func (s *Spec) Render() string {
 			b.WriteString(" \"" + t.Alias + "\"")
 		}
 		b.WriteString("\n")
+	}
+	for _, l := range s.RawDecls {
+		b.WriteString(l + "\n")
 	}
 	for _, p := range s.Prec {
 		b.WriteString("%" + p.Assoc)
